@@ -12,10 +12,25 @@ package pubsub
 // representation invariant of the buffer: the tracked size IS the wire size of the pending batch, within the limit
 //@ spec func RI(m *MessageBuffer) bool = m.pendingSize == encSize(m.pending, len(m.pending)) && m.pendingSize <= m.maxSize && m.maxSize <= 4611686018427387904
 
-// canoto wire format (trusted): a repeated-bytes field is encoded as tag, length varint, bytes per element
-//@ func CreateBatchMessage
+// canoto wire format: a repeated-bytes field is written as tag, length varint, bytes per element --
+// verified on the generated MarshalCanotoInto against the exact growth of canoto.Append/AppendBytes
+//@ func (*BatchMessage).CalculateCanotoCache
 //@   trusted
 //@   noframe
+//@ func (*BatchMessage).CachedCanotoSize
+//@   trusted
+//@   noframe
+//@ func (*BatchMessage).MarshalCanotoInto props C32
+//@   noframe
+//@   reveal encSize msgSize varintLen
+//@   loop 1 invariant 0 <= idx1 && idx1 <= len(c.Messages) && len(w.B) == old(len(w.B)) + encSize(c.Messages, idx1)
+//@   ensures !isnil(c) ==> len(result.B) == old(len(w.B)) + encSize(c.Messages, len(c.Messages))
+//@ func (*BatchMessage).MarshalCanoto props C32
+//@   noframe
+//@   ensures len(result) == encSize(c.Messages, len(c.Messages))
+//@ func CreateBatchMessage props C32
+//@   noframe
+//@   uses encSize_frame
 //@   ensures len(result) == encSize(msgs, len(msgs))
 
 //@ func batchedMessageSize props C32
